@@ -44,7 +44,7 @@ CHECKS = {
     'C08': "Proved (all built globs x all texts): the partition equation at the level of the documented language (C08_partition_preserves_the_language: the texts of the "
            "glob are the invariant prefix followed by the texts of the postfix; a tree wildcard after the prefix gives up its separator; the prefix may be any run of "
            "tokens with invariant text; C08_partition_without_prefix for globs without prefix or beginning with a rooted tree wildcard) and idempotence "
-           "(C08_partition_is_idempotent: partitioned again, the postfix yields an empty prefix and itself, outside the known class rooted_repetition); the capture spans of the postfix lie in the displayed suffix on character boundaries (C08_postfix_capture_spans_are_relative_to_the_suffix). "
+           "(C08_partition_is_idempotent: partitioned again, the postfix yields an empty prefix and itself, outside the known class rooted_repetition); the capture spans of the postfix lie in the displayed suffix on character boundaries (C08_postfix_capture_spans_are_relative_to_the_suffix); for every glob that builds and has no repetition the postfix is never rooted (C08_postfix_is_never_rooted, through the rule-checker theorem of C06 over expansions) and idempotence holds without side condition. "
            "Proved: partitioning a built glob is total up to checked overflow (C08_partition_is_total_up_to_overflow: the top-level tokens tile the expression, so the "
            "popped bytes end where a token begins and an unrooted tree wildcard skips one ASCII character; the postfix always re-annotates); the display-suffix "
            "arithmetic (dropping the popped bytes leaves the suffix on a character boundary). Tie: every observable of partition() vs the model. "
@@ -55,7 +55,7 @@ CHECKS = {
            "exhaustive/non-exhaustive partition vs the model of the repaired sequencer. Oracle: for every Always verdict, descendants of matched canonical paths are matched.",
     'C10': "Proved (partial, stated as such; all patterns of the class x all canonical paths): every pattern without repetitions - alternations, concatenations, leaves "
            "and tree wildcards at any nesting - reports a depth variance that contains the component count of every matched canonical path "
-           "(C10_patterns_without_repetitions_sound / C10_built_globs_without_repetitions_sound_unconditionally, where adjacency is discharged by the rule-checker theorem of C06: terms are sound summaries of flat sequences, summaries compose under "
+           "(C10_patterns_without_repetitions_sound / C10_built_globs_without_repetitions_sound_unconditionally, where adjacency is discharged by the rule-checker theorem of C06, and C10_built_globs_without_repetitions_sound_for_paths_rooted_like_the_glob, where the path is rooted exactly when has_root says Always: terms are sound summaries of flat sequences, summaries compose under "
            "conjunction whatever the grouping, the disjunction covers its operands; the matching expansion has no adjacent boundaries; the known class closed_variant_finalize "
            "is excluded by its predicate); every flat glob that builds, with or without tree wildcards (C10_built_flat_globs_sound, C10_flat_with_tree_wildcards_sound, "
            "C10_flat_sound: exact depth without tree wildcards, a sound lower bound with them); and with repetitions that are written out at least once and whose body has a single depth term (C10_patterns_with_simple_repetitions_sound: ranges instead of exact counts; C10_conjunction_sound, C10_product_sound for arbitrary ranges). Optional repetitions and bodies with several terms: the general statement is in the file as C10_full. Tie: depth() exact variance vs the model of the whole algebra "
@@ -94,7 +94,7 @@ CHECKS = {
            "match: the promise of the exhaustive verdict is discharged by the C09 theorem through conformance. For arbitrary programs the statement is proved given "
            "that promise (C03_not_is_a_filter); per-entry characterisation of the filtrate. C03_negation_of_flat_patterns_is_a_filter: for negations every alternative of "
            "which is a flat rule-checked pattern (`**/target/**`, `*.md`, `src/**/*.tmp`, any() of such) the two partition programs together decide exactly the "
-           "documented language of the pattern and not() is the per-entry filter, with the exhaustiveness promise proved rather than assumed; the same for a negated glob that builds, has no repetition and is not an alternation at its top (`**/{.git,node_modules}/**`: C03_negation_of_a_built_glob_without_repetitions_is_a_filter, through C09 for such globs), and in general whenever the verdicts of the alternatives are sound (C03_negation_is_a_filter_when_the_verdicts_of_its_alternatives_are_sound). Tie: partition programs and item sequences. "
+           "documented language of the pattern and not() is the per-entry filter, with the exhaustiveness promise proved rather than assumed; the same for a negated glob that builds, has no repetition and is not an alternation at its top (`**/{.git,node_modules}/**`: C03_negation_of_a_built_glob_without_repetitions_is_a_filter, through C09 for such globs), and in general whenever the verdicts of the alternatives are sound (C03_negation_is_a_filter_when_the_verdicts_of_its_alternatives_are_sound); every negated glob that builds, has no repetition and cannot end with a separator, whatever its shape, and every combinator of such globs (C03_negation_of_any_built_glob_without_repetitions_is_a_filter, C03_negation_of_a_combinator_of_built_globs_without_repetitions_is_a_filter: the alternatives inherit what the rule checker guarantees of the whole). Tie: partition programs and item sequences. "
            "Oracle: walk.not(p) vs the underlying walk filtered entry by entry with is_match.",
     'C13': "Proved: the combinator stack machine (walkdir stack + layers with residue transitions) refines the pruned pre-order specification for all trees and stacks. "
            "Tie: full feed sequences observed by a pass-through filter_entry. Oracle: nothing beneath a discarded directory is fed downstream; no sibling is lost.",
